@@ -91,3 +91,8 @@ def run(ctx) -> None:
     from ..models import make_interp as _mk
     from ..streamshapes import end_to_end
     end_to_end(ctx, _mk(ctx.p), "C01", "C01.Z.found-where-the-property-says", "C01.Z.not-found-elsewhere")
+    # W: the canonical witness listing of every skeleton is found, first character to last (stream templates)
+    from ..models import make_interp as _mkw
+    from ..streamshapes import witnesses
+    if ctx.tier == "thorough" or ('seq',):
+        witnesses(ctx, _mkw(ctx.p), "C01.W.canonical-witness-is-found", tags=('seq',) if ctx.tier != "thorough" or "C01" != "C07" else ())
